@@ -273,9 +273,19 @@ def file_case(i, cps, tmpdir):
 
 # ------------------------------------------------------------------ extraction hook (core.run_check step 2)
 
+def repo_root():
+    """the source tree the harness under test was built from (tools/mutant_check.sh builds a private one)."""
+    hb = os.environ.get("SV_HARNESS_BIN")
+    if hb:
+        w = os.path.dirname(os.path.dirname(os.path.dirname(os.path.abspath(hb))))
+        if os.path.isdir(os.path.join(w, "repo", "src")):
+            return os.path.join(w, "repo")
+    return "/repo"
+
+
 def extract():
     import charclass
-    changed, err = charclass.write()
+    changed, err = charclass.write(os.path.join(repo_root(), "src", "parser", "macros.rs"))
     if err:
         core.log("[C55] extractor cannot parse src/parser/macros.rs: %s (falling back to the stored classes)" % err)
         return [core.Finding("disagreement", {"extractor": "cannot-parse"},
@@ -342,6 +352,24 @@ def uc_table(cps, impl_env=None):
 def uc_arg(tbl, cps):
     e = sorted(set(c for c in cps if c >= 128))
     return ",".join("%d:%d" % (c, tbl.get(c, 0)) for c in e) if e else "-"
+
+
+ISO_GRAPHIC = set("#$&*+-./:<=>?@^~\\")
+
+
+def iso_unquoted_ascii(s):
+    """ISO 6.4.2 / 7.10.5 for a pure-ASCII text, written independently of the model (None: not ASCII)."""
+    if any(ord(ch) >= 128 for ch in s):
+        return None
+    if s in ("[]", "{}", "!", ";"):
+        return True
+    if not s:
+        return False
+    if "a" <= s[0] <= "z" and all(ch.isalnum() or ch == "_" for ch in s):
+        return True
+    if all(ch in ISO_GRAPHIC for ch in s) and not s.startswith("/*") and s != ".":
+        return True
+    return False
 
 
 def atom_class(cps):
@@ -419,7 +447,9 @@ def run(ctx):
                     model.append("atom\tm%s_%d\t%s\t%s" % (c["id"], k, uc_arg(tbl, cps), enc(cps)))
             c["model"] = model
     t_impl, t_model = diff.run_cases(cases)
-    flaky = [c for c in cases if transient(t_impl.get(c["id"], "missing"))]
+    nout = {"atom": 6, "adj": 3, "gold": 2, "file": 3}
+    flaky = [c for c in cases if transient(t_impl.get(c["id"], "missing"))
+             or split_top(t_impl.get(c["id"], ""), nout[c["kind"]]) is None]
     retried = len(flaky)
     if flaky:
         i2, _ = diff.run_cases([{"id": c["id"], "impl": c["impl"]} for c in flaky[:3000]], parallel=False)
@@ -510,6 +540,12 @@ def run(ctx):
                 add("disagreement", {"family": "atom", "what": "model-readback", "class": cls},
                     "model reader reads %r as %s" % (wqfix, rd), c)
             impl_unq = (q == cps)
+            iso = iso_unquoted_ascii("".join(map(chr, cps)))
+            if iso is not None and iso != impl_unq and not (cps == [39, 39] and q == wq):
+                ok = False
+                add("violation", {"family": "atom", "what": "iso-table", "class": cls, "quoted_impl": str(not impl_unq)},
+                    "atom %r is written %s; ISO 6.4.2/7.10.5 says %s" % ("".join(map(chr, cps)), "unquoted" if impl_unq else "quoted",
+                                                                     "unquoted" if iso else "quoted"), c)
             if (rs == "same") != impl_unq and cps and not (cps == [39, 39] and q == wq):
                 ok = False
                 add("violation", {"family": "atom", "what": "minimality" if rs == "same" else "soundness", "class": cls},
